@@ -82,9 +82,6 @@ Proof.
   rewrite <- !app_assoc. reflexivity.
 Qed.
 
-Lemma slice_head {A} (a rest : list A) n : n = len a -> slice None (Some n) (a ++ rest) = a.
-Proof. intros ->. apply slice_none_l. Qed.
-
 Lemma GetKey_unpack_fields g : wf_getkey g = true -> GetKey_unpack (concat (getkey_field_list g)) = Ok g.
 Proof.
   unfold wf_getkey. rewrite !andb_true_iff. intros [[[[Hn Hrk] H0] H1] H2].
